@@ -33,6 +33,10 @@ CONSTANTS Mode,      \* "honest" (C01) | "hostile" (C05)
           BodyClasses, \* honest: body content classes of payload packets ({"any"}: the driver picks one, seeded;
                      \* else e.g. "zeros", "random", "gzmagic", "gzstream", "hdrlike" - content that must come back
                      \* identical with compression on or off: the contract never looks inside a body)
+          Flags,     \* honest: flag bits the CALLER presets in PacketType and the writer frames as they are:
+                     \* "none" | "enc" (0x80 Encrypted: the reader must reject the packet - after consuming it) |
+                     \* "zpre" (0x40 Compressed although WritePacket is called without compression: the body is
+                     \* raw, the reader's gunzip fails or - statement silent - yields something else)
           MaxStall,  \* empty reads the transport may inject per behaviour
           Chunking,  \* "all": every n in 1..min(want, avail) | "max": always min(want, avail)
           Dev,       \* see above
@@ -81,22 +85,24 @@ OutU(fr) == IF ~fr.z THEN U(fr.sc)
             ELSE CASE fr.gz = "big" -> 1 [] fr.gz \in Bombs -> 10 [] OTHER -> U(fr.sc)
 
 \* what WritePacket lays on the wire for packet [k, z, len]
-WriterFrame(k, z, len, c) ==
+WriterFrame(k, z, len, c, fl) ==
   LET noLen == k # "HB" /\ len = 0 /\ "emptyNoLen" \in Dev
-      wl    == IF k = "HB" \/ noLen THEN 0 ELSE len + (IF z THEN 1 ELSE 0)   \* gzip adds a header
-  IN [k |-> k, z |-> z, e |-> FALSE, len |-> len, c |-> c,
+      wl    == IF k = "HB" \/ noLen THEN 0 ELSE len + (IF z THEN 1 ELSE 0)   \* gzip adds a header (only when really compressing)
+  IN [k |-> k, z |-> z \/ fl = "zpre", e |-> fl = "enc", uz |-> z, fl |-> fl, len |-> len, c |-> c,
       hdr |-> IF k = "HB" \/ noLen THEN 0 ELSE 4,
       sc |-> IF wl = 0 THEN "0" ELSE "S", nb |-> wl, av |-> wl,
       gz |-> IF z THEN "ok" ELSE "na", pay |-> IF len = 0 THEN "empty" ELSE "good"]
 
-HonestPkts ==      [k : {"HB"}, z : BOOLEAN, len : {0}, c : {"none"}]
-              \cup [k : {"CMD"}, z : BOOLEAN, len : 0..MaxLen, c : {"text"}]
-              \cup [k : {"PAY"}, z : BOOLEAN, len : {0}, c : {"none"}]
-              \cup [k : {"PAY"}, z : BOOLEAN, len : 1..MaxLen, c : BodyClasses]
+FlagsFor(k, z) == IF k = "HB" \/ z THEN Flags \ {"zpre"} ELSE Flags
+HonestPkts == { p \in      [k : {"HB"}, z : BOOLEAN, len : {0}, c : {"none"}, fl : Flags]
+                      \cup [k : {"CMD"}, z : BOOLEAN, len : 0..MaxLen, c : {"text"}, fl : Flags]
+                      \cup [k : {"PAY"}, z : BOOLEAN, len : {0}, c : {"none"}, fl : Flags]
+                      \cup [k : {"PAY"}, z : BOOLEAN, len : 1..MaxLen, c : BodyClasses, fl : Flags] :
+                p.fl \in FlagsFor(p.k, p.z) }
 
 Kinds == {"HB", "CMD", "RESP", "HS", "TOPEN", "PAY", "UNK"}
 F(k, z, e, hdr, sc, av, gz, pay) ==
-  [k |-> k, z |-> z, e |-> e, len |-> 0, c |-> "none", hdr |-> hdr, sc |-> sc, nb |-> IF sc = "0" THEN 0 ELSE 2,
+  [k |-> k, z |-> z, e |-> e, uz |-> z, fl |-> "none", len |-> 0, c |-> "none", hdr |-> hdr, sc |-> sc, nb |-> IF sc = "0" THEN 0 ELSE 2,
    av |-> av, gz |-> gz, pay |-> pay]
 NonHB == Kinds \ {"HB"}
 \* content of a complete body: (gzip class, payload class) pairs that make sense for a size class
@@ -131,12 +137,12 @@ Ns(want) == IF Chunking = "max" THEN {Min(want, Avail)} ELSE 1..Min(want, Avail)
 \* the next n wire bytes are exactly bytes j0+1..j0+n of field f of frame id
 Expected(n, f, id, j0) == \A i \in 1..n : LET b == wire[pos + i] IN b.f = f /\ b.id = id /\ b.j = j0 + i
 
-Pk(fr) == [k |-> fr.k, z |-> fr.z, len |-> fr.len, c |-> fr.c]
+Pk(fr) == [k |-> fr.k, z |-> fr.uz, len |-> fr.len, c |-> fr.c, fl |-> fr.fl]
 
 (* ---------------------------------- writer ------------------------------------------------ *)
 Write(p) ==
   /\ Mode = "honest" /\ open /\ Len(sent) < MaxPkts
-  /\ LET fr == WriterFrame(p.k, p.z, p.len, p.c) IN
+  /\ LET fr == WriterFrame(p.k, p.z, p.len, p.c, p.fl) IN
      /\ sent' = Append(sent, fr)
      /\ wire' = wire \o Encode(fr, Len(sent) + 1)
      /\ devs' = IF p.k # "HB" /\ fr.hdr = 0 THEN devs \cup {"emptyNoLen"} ELSE devs
@@ -161,7 +167,7 @@ EmitRead(exp) == Mode = "hostile" => Out([frame |-> sent[1], exp |-> exp])
 
 \* ReadPacket returns a packet for frame id (n bytes), or garbage if the reader had lost alignment
 Deliver(id, p, a, h) ==
-  /\ Upd(Idle, p, Append(decoded, [id |-> id, n |-> p - rd.start]), a, devs, Append(outs, "Packet"), h)
+  /\ Upd(Idle, p, Append(decoded, [id |-> id, n |-> p - rd.start, rej |-> FALSE]), a, devs, Append(outs, "Packet"), h)
   /\ EmitRead("Packet")
 
 \* readPacketType: one Read of a 1-byte buffer
@@ -172,7 +178,7 @@ ReadType ==
      IF b.f # "T"
      THEN Fail(pos + 1, devs, h)                       \* misaligned: a body/length byte read as a type
      ELSE IF sent[b.id].k = "HB"
-     THEN /\ Upd(Idle, pos + 1, Append(decoded, [id |-> b.id, n |-> 1]), 0, devs, Append(outs, "Packet"), h)
+     THEN /\ Upd(Idle, pos + 1, Append(decoded, [id |-> b.id, n |-> 1, rej |-> FALSE]), 0, devs, Append(outs, "Packet"), h)
           /\ EmitRead("Packet")
      ELSE Upd([ph |-> "Len", id |-> b.id, got |-> 0, need |-> 4, bad |-> FALSE, start |-> pos],
               pos + 1, decoded, 0, devs, outs, h)
@@ -236,21 +242,26 @@ Inflate(fr, capped) ==
   ELSE IF out = 0 THEN U(fr.sc)
   ELSE IF capped \/ out <= 1 THEN (IF U(fr.sc) = 1 THEN 3 ELSE 4)   \* output (cut) at MAX+1: < 4 units in total
   ELSE 2 * out                                                      \* unbounded doubling
+\* ReadPacket returns an error for a completely consumed packet; the next call starts at the next packet
+Reject(a, dv) == Upd(Idle, pos, Append(decoded, [id |-> rd.id, n |-> pos - rd.start, rej |-> TRUE]), a, dv,
+                     Append(outs, "Rejected"), hist)
 Post ==
   /\ ~open /\ rd.ph = "Post"
   /\ LET fr == sent[rd.id] IN
      IF rd.bad THEN Deliver(0, pos, alloc, hist)                    \* misaligned garbage handed out as a packet
-     ELSE IF fr.e THEN Fail(pos, devs, hist) /\ EmitRead("Error")   \* encryption not supported here
+     ELSE IF fr.e THEN (IF Mode = "honest" THEN Reject(alloc, devs)      \* encryption not supported here: an error for
+                        ELSE Fail(pos, devs, hist) /\ EmitRead("Error"))   \* THIS packet, all of its bytes consumed
      ELSE LET capped == "unboundedInflate" \notin Dev
               a1   == IF fr.z THEN alloc + Inflate(fr, capped) ELSE alloc
               zerr == fr.z /\ (fr.gz \in {"corrupt", "trunc", "na"} \/ fr.nb = 0 \/ (fr.gz \in Bombs /\ capped))
               dv   == IF fr.z /\ fr.gz \in Bombs /\ ~capped THEN devs \cup {"unboundedInflate"} ELSE devs
               a2   == IF fr.k \in {"CMD", "RESP"} /\ ~zerr THEN a1 + OutU(fr) ELSE a1   \* json decode
               jerr == fr.k \in {"CMD", "RESP"} /\ fr.pay \in NotACommand /\ Mode = "hostile"   \* json.Unmarshal into CommandPacket
-          IN IF zerr \/ jerr
+          IN IF Mode = "honest" /\ zerr THEN Reject(a2, dv)   \* gunzip of a body that is not gzip: same - the caller may read on
+             ELSE IF zerr \/ jerr
              THEN Upd([rd EXCEPT !.ph = "Err"], pos, decoded, a2, dv, Append(outs, "Error"), hist) /\ EmitRead("Error")
              ELSE /\ Upd(IF Mode = "hostile" THEN [rd EXCEPT !.ph = "Dispatch"] ELSE Idle, pos,
-                         Append(decoded, [id |-> rd.id, n |-> pos - rd.start]), a2, dv, Append(outs, "Packet"), hist)
+                         Append(decoded, [id |-> rd.id, n |-> pos - rd.start, rej |-> FALSE]), a2, dv, Append(outs, "Packet"), hist)
                   /\ EmitRead("Packet")
 
 \* SessionManager.HandlePacket on a fresh connection; afterwards the read loop goes on
@@ -280,7 +291,7 @@ Terminal == rd.ph \in {"Eof", "Err"}
 OK(P) == P \/ devs # {}            \* one flagged deviation must not mask the other routes: checked per cfg
 
 TypeOK == /\ pos \in 0..Len(wire) /\ alloc \in Nat /\ devs \subseteq Dev
-          /\ \A i \in 1..Len(outs) : outs[i] \in {"Packet", "Error", "Reply", "Eof"}
+          /\ \A i \in 1..Len(outs) : outs[i] \in {"Packet", "Error", "Reply", "Eof", "Rejected"}
 
 \* C01 - what was read is what was written, in order ...
 Prefix == Mode = "honest" =>
@@ -296,7 +307,10 @@ Complete == (Mode = "honest" /\ rd.ph = "Eof") => (Len(decoded) = Len(sent) /\ p
 \* the writer's side of the contract: every non-heartbeat packet carries its length
 LengthAlways == \A i \in 1..Len(sent) : sent[i].k # "HB" /\ Mode = "honest" => sent[i].hdr = 4
 
-C01 == Prefix /\ Aligned /\ NoError /\ Complete /\ LengthAlways
+\* only packets with a caller-preset flag may be refused; an unflagged packet always comes back
+RejectOnlyFlagged == Mode = "honest" => \A i \in 1..Len(decoded) : (decoded[i].rej /\ decoded[i].id = i) => sent[i].fl # "none"
+
+C01 == Prefix /\ Aligned /\ NoError /\ Complete /\ LengthAlways /\ RejectOnlyFlagged
 C01orDev == OK(C01)
 
 \* C05 - allocation stays below the bound in every state; nothing is allocated for an oversize
